@@ -7,16 +7,23 @@
 (*   <<"step", s, i, "passed"|"skipped"|"failed">>  one per executed step  *)
 (*   <<"hook", s, -1|-2, "failed">>                 failed before/after hook *)
 (*   <<"perr", "", 0, "failed">>                    parser error            *)
+(* plus, as fifth component, the failure message token of a panicking step *)
+(* or failing hook ("" otherwise): the report must carry the message.      *)
 (* Reports are parsed back by independent parsers (lib/report_parsers.py:  *)
 (* python json, xml.etree, a line grammar) into the same shape; retried    *)
 (* attempts are distinct facts (bag semantics).                            *)
 (***************************************************************************)
 EXTENDS Univ
 
+\* the message token the harness puts into the payload of a panicking step / failing hook
+\* (harness/src/writers.rs, Objects::build): P|<scenario>|<attempt>|<kind><hook><index>
+MsgOf(e) == "P|" \o e.s \o "|" \o ToString(e.cur) \o "|" \o e.k \o e.h \o ToString(e.i)
 FactOf(e) ==
-  IF e.t = "ParseErr" THEN <<"perr", "", 0, "failed">>
-  ELSE IF e.k = "HookF" THEN <<"hook", e.s, IF e.h = "b" THEN -1 ELSE -2, "failed">>
-  ELSE <<"step", e.s, e.i, CASE e.k = "StepP" -> "passed" [] e.k = "StepSk" -> "skipped" [] OTHER -> "failed">>
+  IF e.t = "ParseErr" THEN <<"perr", "", 0, "failed", "">>
+  ELSE IF e.k = "HookF" THEN <<"hook", e.s, IF e.h = "b" THEN -1 ELSE -2, "failed", MsgOf(e)>>
+  ELSE <<"step", e.s, e.i,
+         CASE e.k = "StepP" -> "passed" [] e.k = "StepSk" -> "skipped" [] OTHER -> "failed",
+         IF e.k = "StepF" /\ e.err = "panic" THEN MsgOf(e) ELSE "">>
 IsFact(e) == e.t = "ParseErr" \/ (IsSc(e) /\ e.k \in {"StepP", "StepSk", "StepF", "HookF"})
 ExpFacts(stream) == LET sel == SelectSeq(stream, IsFact) IN [i \in DOMAIN sel |-> FactOf(sel[i])]
 
